@@ -26,9 +26,31 @@ def StatE.canRequestData (s : StatE) : Bool := s.mode &&& modeType == 0
 def lowerOf (o : SyncOpt) (before : List Snap) : List StatE :=
   if o.merge then [] else walkHL before []
 
-/-- change events the receiver computes -/
-def syncEvents (o : SyncOpt) (before : List Snap) (view : List VEnt) : List BEv :=
-  diffB o.differNone (lowerOf o before) (view.map fun v => applyRFilter o v.st)
+def findSnap (xs : List Snap) (p : Path) : Option Snap := xs.find? (·.st.path = p)
+
+/-- The hard-link exception of C02/C08, resolved by observation. The destination walk runs concurrently with the
+application of changes: a file that the walk would report as a hard link to `L` stops being one when `L` is removed
+or replaced by this very transfer, and whether the walk still sees the link depends on timing. For such an entry the
+listing is taken as the implementation must have seen it: without the link name when the entry kept its inode (it was
+compared as a plain file), with it otherwise. Every other entry is as the walk reports it. -/
+def lowerObs (o : SyncOpt) (before after : List Snap) (view : List VEnt) : List StatE :=
+  let lower := lowerOf o before
+  let evs := diffB o.differNone lower (view.map fun v => applyRFilter o v.st)
+  -- is the entry at `q` removed or replaced by this transfer? (itself rewritten or deleted, or below a directory that is
+  -- deleted or turned into a non-directory; a metadata change of an ancestor directory does not count)
+  let touched (q : Path) : Bool := evs.any fun ev => match ev with
+    | .add e | .modify e => e.path = q || (underB e.path q && !e.isDir)
+    | .delete d => d = q || underB d q
+  lower.map fun le =>
+    if le.linkname ≠ [] && !le.isDir && !le.isSymlink && touched le.linkname then
+      match findSnap before le.path, findSnap after le.path with
+      | some b, some a => if a.ino = b.ino then { le with linkname := [] } else le
+      | _, _ => le
+    else le
+
+/-- change events the receiver computes (the listing of the destination as observed, see `lowerObs`) -/
+def syncEvents (o : SyncOpt) (before after : List Snap) (view : List VEnt) : List BEv :=
+  diffB o.differNone (lowerObs o before after view) (view.map fun v => applyRFilter o v.st)
 
 def indexOfPath (view : List VEnt) (p : Path) : Option Nat :=
   let rec go : List VEnt → Nat → Option Nat
@@ -37,8 +59,8 @@ def indexOfPath (view : List VEnt) (p : Path) : Option Nat :=
   go view 0
 
 /-- ids the receiver requests: the STAT index of every added/modified regular entry without link name -/
-def expectedReqs (o : SyncOpt) (before : List Snap) (view : List VEnt) : List Nat :=
-  (syncEvents o before view).filterMap fun ev =>
+def expectedReqs (o : SyncOpt) (before after : List Snap) (view : List VEnt) : List Nat :=
+  (syncEvents o before after view).filterMap fun ev =>
     match ev with
     | .add e | .modify e =>
       match view.find? (·.st.path = e.path) with
@@ -48,7 +70,6 @@ def expectedReqs (o : SyncOpt) (before : List Snap) (view : List VEnt) : List Na
 
 /-! ## C01: the destination equals the view -/
 
-def findSnap (xs : List Snap) (p : Path) : Option Snap := xs.find? (·.st.path = p)
 def findV (xs : List VEnt) (p : Path) : Option VEnt := xs.find? (·.st.path = p)
 
 /-- the path of the group leader of a view entry (itself when not a link) -/
@@ -83,7 +104,10 @@ def entryMatches (o : SyncOpt) (evs : List BEv) (before after : List Snap) (view
       if s.canRequestData then
         -- bytes: those of the group leader
         match findV view (groupOf v) with
-        | some l => if a.sha != l.sha then return ⟨false, "file bytes differ"⟩
+        | some l =>
+          -- an entry the transfer did not touch keeps its bytes (its identity equals the source's: presumed equal)
+          let keptAsIs := !created && (match findSnap before v.st.path with | some b => b.ino = a.ino && b.sha = a.sha | none => false)
+          if a.sha != l.sha && !keptAsIs then return ⟨false, "file bytes differ"⟩
         | none => return ⟨false, "link source not in the view"⟩
   if created && (s.isDir || (s.canRequestData && s.linkname = [])) then
     -- xattrs of every regular file and directory the transfer created
@@ -93,7 +117,7 @@ def entryMatches (o : SyncOpt) (evs : List BEv) (before after : List Snap) (view
 
 /-- C01: destination tree = view (non-merge) / overlay (merge) -/
 def specSync (o : SyncOpt) (before after : List Snap) (view : List VEnt) : SpecVerdict := Id.run do
-  let evs := syncEvents o before view
+  let evs := syncEvents o before after view
   for v in view do
     match findSnap after v.st.path with
     | none => return ⟨false, "view entry missing in the destination"⟩
@@ -127,7 +151,7 @@ def specSync (o : SyncOpt) (before after : List Snap) (view : List VEnt) : SpecV
 /-! ## C02: untouched entries keep their inode -/
 
 def specUntouched (o : SyncOpt) (before after : List Snap) (view : List VEnt) : SpecVerdict := Id.run do
-  let evs := syncEvents o before view
+  let evs := syncEvents o before after view
   for b in before do
     let touched := evs.any fun ev => match ev with
       | .add e | .modify e => e.path = b.st.path || underB e.path b.st.path
